@@ -15,6 +15,7 @@ handler must not fire.
 import re
 
 from .. import build, codec, common as C, gen_ops as O, refmodel as R, schema as S
+from . import c06
 from ..findings import Report
 
 
@@ -34,6 +35,7 @@ def main():
         cfgs.append(build.Cfg("g++", "23", "plain", defs=("SBEPP_ENABLE_ASSERTS_WITH_HANDLER", "VRT_STEP_COUNTER"),
                               extra=("-O2", "-fsanitize-coverage=trace-pc")))
     max_full = 700 if quick else 2500
+    nsteer = 6 if quick else 40
     rep.rule("per message of the covering corpus and seeded random schemas: one well-formed image (all groups non-empty, "
              "capped at %d bytes); every generated operation (field get/set named, by tag and through cursors with every "
              "wrapper - plain, init, dont_move, init_dont_move, skip - where the cursor is placed via cursor::pointer() "
@@ -109,9 +111,34 @@ def main():
                     else:
                         ext = O.member_extent(m, lv, v, start, bl, op.member, op.extent_kind)
                     cid = "o%d" % len(out)
-                    out.append(dict(id=cid, mi=mi, oi=oi, op=op, idx=idx, extent=ext, full=full, msg=msg, image=image,
-                                    cmd="OPS %s %x %x %x %s %x %s" % (cid, mi, oi, len(idx), " ".join("%x" % i for i in idx), cap, image.hex() or "-")
-                                    if idx else "OPS %s %x %x 0 %x %s" % (cid, mi, oi, cap, image.hex() or "-")))
+                    out.append(dict(id=cid, mi=mi, oi=oi, op=op, idx=idx, extent=ext, full=full, msg=msg, image=image, steered=None, ns=full + 1,
+                                    cmd="OPS %s %x %x %x%s %x 1 %s" % (cid, mi, oi, len(idx), "".join(" %x" % i for i in idx), cap, image.hex() or "-")))
+            # steering images: one length field (message/group blockLength, numInGroup, <data> length) overwritten with a
+            # value at or near the maximum of its type (where `prefix + length` or `count * blockLength` wraps in a narrow
+            # type), slightly too large, or zero.  Only oracle 1 applies (the extent is no longer what the model says);
+            # buffer lengths are sampled (every `step` bytes and the full length).
+            _, owner = R.encode_message(m, msg, vals)
+            lf = c06.length_fields(m, msg, vals, image, owner)
+            combos = []
+            for off, size, kind in lf:
+                mx = 2 ** (8 * size) - 1
+                for v in (mx, mx - 1, mx - size, mx - size + 1, 2 ** (8 * size - 1), 0, len(image)):
+                    combos.append((off, size, kind, v & mx))
+            rng2 = C.rng_for(rep.seed, "C10-steer", p.schema.name, msg.name)
+            rng2.shuffle(combos)
+            step = max(1, full // 24)
+            for off, size, kind, v in combos[:nsteer]:
+                img2 = bytearray(image)
+                img2[off:off + size] = v.to_bytes(size, "big" if m.big else "little")
+                img2 = bytes(img2)
+                for oi, op in enumerate(g.ops[mi]):
+                    if op.kind in ("message-size_bytes_checked",) or op.kind in O.SIZE_AS_ARGUMENT or len(op.path) > 1:
+                        continue
+                    idx = [0] * len(op.path)
+                    cid = "o%d" % len(out)
+                    out.append(dict(id=cid, mi=mi, oi=oi, op=op, idx=idx, extent=None, full=full, msg=msg, image=img2,
+                                    steered="%s@%d=%d" % (kind, off, v), ns=full // step + 2,
+                                    cmd="OPS %s %x %x %x%s %x %x %s" % (cid, mi, oi, len(idx), "".join(" %x" % i for i in idx), cap, step, img2.hex())))
         return out
 
     all_cases = {p.schema.name: cases_for(p, gens[p.schema.name]) for p in preps}
@@ -133,7 +160,7 @@ def main():
                 inp = "\n".join(c["cmd"] for c in pending) + "\n"
                 rc, o, _, to = C.run([exe], input=inp.encode(), timeout=900)
                 txt = o.decode(errors="replace")
-                for mm in re.finditer(r"^O (\S+) first_ok=(-?\d+) asserts=(\d+) faults=(\d+) silent=(\S+) late=(\S+) runaway=(\S+) last_assert_in=(\S+)$", txt, re.M):
+                for mm in re.finditer(r"^O (\S+) first_ok=(-?\d+) asserts=(\d+) faults=(\d+) silent=(\S+) late=(\S+) runaway=(\S+) before=(\S+) aborted=(\S+) last_assert_in=(\S+)$", txt, re.M):
                     got[mm.group(1)] = mm.groups()
                 if rc == 0 and not to:
                     break
@@ -159,19 +186,21 @@ def main():
             r = res.get(c["id"])
             if r is None:
                 continue
-            _, first_ok, asserts, faults, silent, late, runaway, afunc = r
+            _, first_ok, asserts, faults, silent, late, runaway, before, aborted, afunc = r
             first_ok, asserts, faults = int(first_ok), int(asserts), int(faults)
             op = c["op"]
-            rep.evaluation(c["full"] + 1)
-            rep.count("op_n_pairs", c["full"] + 1)
+            rep.evaluation(c["ns"])
+            rep.count("op_n_pairs", c["ns"])
+            if c["steered"]:
+                rep.count("steered_op_runs")
             rep.count("handler_calls", asserts)
             rep.count("faults", faults)
             mk = codec.member_kind(m, c["msg"], ".".join(op.path + [op.member[0]] + list(op.member[1]))) if op.member[0] != "#msg" else "message"
-            if asserts and first_ok >= 0:
-                rep.nontrivial(name, c["msg"].name, op.kind, mk)
+            if asserts and (first_ok >= 0 or c["steered"]):
+                rep.nontrivial(name, c["msg"].name, op.kind, mk, "steered" if c["steered"] else "")
             rep.cov.setdefault("op_kinds", {})
             rep.cov["op_kinds"][op.kind] = rep.cov["op_kinds"].get(op.kind, 0) + 1
-            replay = {"schema": name, "schema_xml": p.xml, "config": str(cfg), "message": c["msg"].name, "operation": op.kind,
+            replay = {"schema": name, "schema_xml": p.xml, "config": str(cfg), "message": c["msg"].name, "operation": op.kind, "steered": c["steered"],
                       "member": ".".join(op.path + [op.member[0]] + list(op.member[1])), "entry_indices": c["idx"], "body": op.body,
                       "image_hex": c["image"].hex(), "extent": c["extent"], "observed": {"first_ok": first_ok, "asserts": asserts,
                       "faults": faults, "silent": silent, "late": late[:200], "last_assert_in": afunc}}
@@ -181,14 +210,23 @@ def main():
                 lk[op.kind] = lk.get(op.kind, 0) + late.count(",")
             if runaway != "-":
                 rep.count("runaway_cases", runaway.count(","))
+            if before != "-":
+                rep.count("faults_in_front_of_buffer_not_judged", before.count(","))
+            if aborted != "-":
+                rep.violation("oob-abandoned", "%s/%s" % (op.kind, mk.split(":")[0]),
+                              "%s/%s msg %s: %s on %s kept touching memory at/after the end of an n-byte view (more than 16 MiB of it, or "
+                              "outside the 8 GiB window) without the assertion handler having been invoked; abandoned (n:first offset "
+                              "list %s)%s" % (name, cfg, c["msg"].name, op.kind, replay["member"], aborted[:120],
+                                             "; image steered: " + c["steered"] if c["steered"] else ""), replay)
             if silent != "-":
                 first = silent.split(",")[0]
                 rep.violation("silent-oob", "%s/%s" % (op.kind, mk.split(":")[0]),
                               "%s/%s msg %s: %s on %s touched memory at/after the end of an n-byte view without the assertion "
-                              "handler being invoked (n:offset list %s)" % (name, cfg, c["msg"].name, op.kind, replay["member"], silent[:120]),
+                              "handler being invoked (n:offset list %s)%s" % (name, cfg, c["msg"].name, op.kind, replay["member"], silent[:120],
+                                                                                 "; image steered: " + c["steered"] if c["steered"] else ""),
                               replay)
             ext = c["extent"]
-            if op.extent_kind not in ("none",) and ext is not None and ext <= c["full"]:
+            if not c["steered"] and op.extent_kind not in ("none",) and ext is not None and ext <= c["full"]:
                 if first_ok < 0 or first_ok > ext:
                     rep.violation("spurious-assert", "%s/%s" % (op.kind, mk.split(":")[0]),
                                   "%s/%s msg %s: %s on %s still invokes the handler (in %s) with a buffer of %s bytes although the entity "
